@@ -12,7 +12,9 @@ CHECKS = {
              "for every list of <=4 spans and checks that it refines the property-level postcondition; "
              "every TLC-generated list, seeded random lists and rule-produced lint lists are executed on "
              "the real harper_core::remove_overlaps and each recorded (in,out) pair is validated by TLC "
-             "against the same postcondition (spec/trace/Trace_Overlaps.tla).",
+             "against the same postcondition (spec/trace/Trace_Overlaps.tla). The two consumers the property names "
+             "are observed too: harper-wasm's Linter::lint result and the report of the real harper-cli binary "
+             "(read back from its rendering) must be overlap removal applied to the raw lints of the same pipeline.",
         note="Trusted: TLC, the harness's projection of a Lint to (id,s,e,digest). Bounded: lists <=4 spans "
              "exhaustively (model), <=40 spans randomly (implementation).",
         ref="4 C13", technique="TLA+ model checking (TLC) + spec-to-code replay + trace validation"),
@@ -81,7 +83,9 @@ CHECKS["C19"] = dict(
          "the real Stats::write in every split into append batches (in memory and through an append-mode file "
          "as harper-ls does), together with records from real lints and harper-wasm's generate/import; every "
          "session (Reset/Wrote/ReadBack/Summary events) is validated by the stateful trace spec "
-         "spec/trace/Trace_StatsLog.tla.",
+         "spec/trace/Trace_StatsLog.tla. Sessions of the language server in which statsPath moves while records are "
+         "pending are specified in spec/StatsSession.tla (three behaviours of a path change) and real sessions are "
+         "judged by spec/trace/Trace_StatsSession.tla: each applied record in the logs exactly once, in order.",
     note="Trusted: TLC; record identity = digest of the Debug form of the record in the harness.",
     ref="4 C19", technique="TLA+ model checking (TLC) + spec-to-code replay + trace validation")
 
@@ -119,7 +123,7 @@ CHECKS["C11"] = dict(
          "model keys mapped to real rule names, and TLC validates the stored map against the spec's operator "
          "(spec/trace/Trace_Config.tla). Real documents are linted on a reused linter under E, under both halves of "
          "a partition of E and under E again (multiset equation), and user settings are overlaid through harper-ls's "
-         "and harper-wasm's entry formats.",
+         "and harper-wasm's entry formats under each of the four dialects, against the curated group of that dialect.",
     note="Trusted: TLC; lint identity = digest of the serialised lint. 'rule' means rule name (one name may drive "
          "two linters).",
     ref="4 C11", technique="TLA+ model checking (TLC) + spec-to-code replay + trace validation")
@@ -155,7 +159,10 @@ CHECKS["C08"] = dict(
          "RoundTrip, RangeCovers, LookupInside and client-side edit = Apply for every text up to the bound. Every "
          "TLC text x every in-line span runs through the real pos_conv functions, and real multi-line documents run "
          "through the real DocumentState (diagnostics, code actions at every character of every range, every edit "
-         "applied client-side); TLC validates ranges, look-ups and edits (spec/trace/Trace_PosConv.tla).",
+         "applied client-side); TLC validates ranges, look-ups and edits (spec/trace/Trace_PosConv.tla). A second, "
+         "protocol-level stage drives the real harper-ls binary over stdio with clients that offer position encodings "
+         "(spec/PosEncoding.tla, spec/trace/Trace_PosProto.tla): positions are read in the unit the server announces; "
+         "this stage alone still runs when the harness crate does not compile against the tree.",
     note="Trusted: TLC; the harness's and the spec's independent readings of an LSP position. Lone CR line ends are "
          "outside the property (LF and CRLF only); positions in the middle of a surrogate pair are not requested.",
     ref="4 C08", technique="TLA+ model checking (TLC) + spec-to-code replay + trace validation")
